@@ -1,7 +1,10 @@
 import TIV.Common.Wire
 import TIV.C14.Model
 /-! driver ops of C14: `sched n proc₀ … procₙ₋₁ k step₁ … stepₖ m flavour₁ … flavourₘ`
-    steps: `c<t>` call, `s<t>.<child>` start, `a<t>` advance, `n<t>` no query, `r` terminal responds -/
+    steps: `c<t>` call, `s<t>.<child>` start, `a<t>` advance / return, `w<t>` write a query,
+    `d<t>` read a reply part, `r` the terminal delivers a reply part.
+    `fsched …` is the same op on the model's side: the trailing tokens name the REAL query functions
+    each thread runs (nv = get_terminal_name_version, fb = get_fg_bg_colors, cs = get_cell_size). -/
 namespace TIV.C14
 open TIV.Wire
 
@@ -14,22 +17,21 @@ def describe (s : State) (t : Nat) (a : Act) (s' : State) : String :=
   let p := s.proc t
   match a with
   | .respond => match s.pend with
-      | q :: _ => s!"rsp:{q}"
+      | q :: _ => s!"rsp:{q.1}.{q.2}"
       | [] => "x"
   | .call => "call"
   | .start _ => "start"
-  | .noq => "noq"
+  | .wr => s!"wr:{s.nextQ}"
+  | .rd => match s.outq t, s.repl with
+      | some (q, _), r :: _ => s!"rd:{q}:{r.1}.{r.2}"
+      | _, _ => "x"
   | .adv => match s.thr t with
     | .idle => "x"
     | .sync f _ => match f.pc with
       | .ld1 | .ld2 => s!"ld:{lkName (s.cur p)}"
       | .aq1 => s!"aq:{lkName f.l1}:{(s'.lk f.l1).count}"
       | .aq2 => s!"aq:{lkName f.l2}:{(s'.lk f.l2).count}"
-      | .csW => s!"wr:{s.nextQ}"
-      | .csR => match s.repl with
-          | r :: _ => s!"rd:{f.q}:{r}"
-          | [] => "x"
-      | .csD => "ret"
+      | .cs => "ret"
       | .rl2 => s!"rl:{lkName f.l2}:{(s'.lk f.l2).count}"
       | .rl1 => s!"rl:{lkName f.l1}:{(s'.lk f.l1).count}"
     | .start pc l pass c => match pc with
@@ -53,7 +55,8 @@ def parseStep (tok : String) : Option (Nat × Act) :=
   | ['r'] => some (0, .respond)
   | 'c' :: ds => (String.ofList ds).toNat?.map fun t => (t, .call)
   | 'a' :: ds => (String.ofList ds).toNat?.map fun t => (t, .adv)
-  | 'n' :: ds => (String.ofList ds).toNat?.map fun t => (t, .noq)
+  | 'w' :: ds => (String.ofList ds).toNat?.map fun t => (t, .wr)
+  | 'd' :: ds => (String.ofList ds).toNat?.map fun t => (t, .rd)
   | 's' :: ds =>
     match (String.ofList ds).splitOn "." with
     | [a, b] => match a.toNat?, b.toNat? with
@@ -78,7 +81,9 @@ def summary (s : State) (n np : Nat) : String :=
   let ins := (List.range n).filter fun t => (s.thr t).inside
   let insS := if ins.isEmpty then "-" else String.intercalate "," (ins.map toString)
   let curs := (List.range (np + 1)).filter (fun p => s.up p) |>.map fun p => s!"{p}:{lkName (s.cur p)}"
-  s!"inside={insS} cur={String.intercalate "," curs}"
+  let outs := (List.range n).filterMap fun t => (s.outq t).map fun (q, k) => s!"{t}:{q}.{k}"
+  let outS := if outs.isEmpty then "-" else String.intercalate "," outs
+  s!"inside={insS} cur={String.intercalate "," curs} out={outS} unread={(s.repl ++ s.pend).length}"
 
 def handler : Handler := fun op args =>
   match op with
@@ -90,6 +95,17 @@ def handler : Handler := fun op args =>
       let (e, evs) := runDescribe (init (procOf ps)) steps
       let en := (runSched (init (procOf ps)) steps).2
       -- `runSched` (the function the theorems talk about) and `runDescribe` must agree
+      let agree := en == evs.map (· != "x")
+      pure (if agree then
+        "ok " ++ String.intercalate "|" evs ++ " # " ++ summary e ps.length (maxProc ps steps)
+      else "err runSched-disagrees")) args
+  | "fsched" => run (do
+      let ps ← listOf nat
+      let steps ← listOf pStep
+      let progs ← listOf word   -- per thread: the real functions it calls, e.g. `nv+cs`
+      if !(progs.all fun p => (p.splitOn "+").all fun f => f == "nv" || f == "fb" || f == "cs" || f == "-") then failure
+      let (e, evs) := runDescribe (init (procOf ps)) steps
+      let en := (runSched (init (procOf ps)) steps).2
       let agree := en == evs.map (· != "x")
       pure (if agree then
         "ok " ++ String.intercalate "|" evs ++ " # " ++ summary e ps.length (maxProc ps steps)
